@@ -564,6 +564,10 @@ impl<T: Clone + Eq + Debug + Default> WrappedBlock<T> {
     /// Consume self and return vector of lines including annotations.
     pub fn into_lines(mut self) -> Result<Vec<TaggedLine<T>>> {
         self.flush()?;
+        // Zero-width markers with no text after them stay with the last line.
+        if let Some(last) = self.text.last_mut() {
+            last.consume(&mut self.line);
+        }
 
         Ok(self.text)
     }
